@@ -209,7 +209,7 @@ PROPS["C19"] = {
     "level_note": "Trusted: Lean kernel; std::net IpAddr Display/FromStr round trip is a recorded hypothesis (verdicts recorded per host string and handed to the model); tonic/prost transport; HashMap iteration order canonicalised by sorting.",
     "lean_modules": ["Passage.Props.C19"],
     "cases": {"quick": 1200, "thorough": 300000},
-    "rule": "discovery replies of 0..4 targets with IPv4/IPv6 hosts in compressed, full, mapped, upper-case, loopback, unspecified forms, ports 0/1/25565/65535, metadata with duplicates and empty strings, one malformed entry in a third of the replies (missing address, non-IP host incl. bracketed and zone forms, port > 65535); strategy calls with 0..4 candidates, replies: echo of a candidate, none, foreign or malformed target, service error; non-trivial = every call with at least one target; distinct = distinct request lines",
+    "rule": "discovery replies of 0..4 targets with IPv4/IPv6 hosts in compressed, full, mapped, upper-case, loopback, unspecified forms, ports 0/1/25565/65535, metadata with duplicates and empty strings, one malformed entry in a third of the replies (missing address, non-IP host incl. bracketed and zone forms, port > 65535); strategy calls with 0..4 candidates, replies: echo of a candidate, none, foreign or malformed target, service error; non-trivial = every call with at least one target; distinct = distinct request lines; a quarter of the calls go through the adapters as the application builds them (configuration value -> DynDiscoveryAdapter / DynStrategyAdapter::from_config)",
     "trusted_base": TB_COMMON + ["std::net IP text round trip (recorded hypothesis)", "tonic/prost encode-decode of the messages"],
     "assumptions": ["parseIp (showIp a) = some a"],
 }
@@ -221,7 +221,7 @@ PROPS["C20"] = {
     "level_note": "Trusted: Lean kernel; kube-runtime's translation of list/watch HTTP traffic into watcher::Event values (the model takes Events; the harness translates by the documented list-watch contract); IpAddr::from_str verdicts recorded; HashMap metadata modelled as association list with insert-overrides; timing: snapshots wait for a sentinel (3 s / 8 s for re-lists).",
     "lean_modules": ["Passage.Props.C20"],
     "cases": {"quick": 40, "thorough": 600},
-    "rule": "histories over four GameServers: random initial list, 1..9 events (thorough ..24) of ADDED/MODIFIED (states Ready, Allocated, Shutdown, Scheduled, Unhealthy, Reserved, Creating; unconvertible objects: no ports, bad address, no status; counters, lists, labels incl. a label named state, annotations), DELETED, BOOKMARK, and in some histories a 410 Gone with a re-list that omits/changes objects; a sentinel object after every event fixes the snapshot point; non-trivial = every history; distinct = distinct request lines",
+    "rule": "histories over four GameServers: random initial list, 1..9 events (thorough ..24) of ADDED/MODIFIED (states Ready, Allocated, Shutdown, Scheduled, Unhealthy, Reserved, Creating; unconvertible objects: no ports, bad address, no status; counters, lists, labels incl. a label named state, annotations), DELETED, BOOKMARK, and in some histories a 410 Gone with a re-list that omits/changes objects; a sentinel object after every event fixes the snapshot point; non-trivial = every history; distinct = distinct request lines; every other history drives the adapter built by the application factory (DynDiscoveryAdapter::from_config: bookmarks, pages of 500)",
     "trusted_base": TB_COMMON + ["kube-runtime watcher: HTTP list/watch -> Event translation (documented contract)", "std::net IP parsing (recorded verdicts)"],
     "assumptions": ["one namespace or unique names across namespaces (identity is metadata.name; see DESIGN §5.2)"],
     "timeout": {"quick": 1800, "thorough": 14400},
@@ -277,7 +277,7 @@ PROPS["C16"] = {
     "level_note": "Partial by nature: the proof is about the await structure; tokio's scheduler fairness, the kernel accept queue and CPU starvation are outside it and sampled by the real runs.",
     "lean_modules": ["Passage.Props.C16"],
     "cases": {"quick": 40, "thorough": 1200},
-    "rule": "PROXY on 2 in 3, limiter on 1 in 2, 0–4 stalled clients each at a random stage of the menu for that setting; non-trivial = at least one stalled client; distinct = distinct stage lists; added stages: half-closed mid-frame, burst of 24 connect-and-reset, client that requests a 200 KB status with a 1 KB receive window and never reads; limiter budget 2; idle gap longer than the (1 s) timeout before the well-behaved client; CPU burnt by the server thread while every connection is stalled must stay below 200 ms per 300 ms",
+    "rule": "PROXY on 2 in 3, limiter on 1 in 2, 0–4 stalled clients each at a random stage of the menu for that setting; non-trivial = at least one stalled client; distinct = distinct stage lists; added stages: half-closed mid-frame, burst of 24 connect-and-reset, client that requests a 200 KB status with a 1 KB receive window and never reads; limiter budget 2; idle gap longer than the (1 s) timeout before the well-behaved client; CPU burnt by the server thread while every connection is stalled must stay below 200 ms per 300 ms; one case in a child process with 160 descriptors: a connection that cannot be accepted for want of a descriptor, then a well-behaved client (stalled=fd-exhaustion)",
     "trusted_base": TB_LISTENER,
     "assumptions": ["a runtime worker is available to the accept loop (no CPU starvation)"],
     "timeout": {"quick": 1800, "thorough": 14400},
@@ -290,7 +290,7 @@ PROPS["C17"] = {
     "level_note": "Partial by nature: interleavings are modelled at the granularity of awaits; the kernel may complete the TCP handshake of a late connection (not served means never accepted); timing by real clock.",
     "lean_modules": ["Passage.Props.C17"],
     "cases": {"quick": 24, "thorough": 600},
-    "rule": "the race schedule first, then random cases: 0–4 in-flight clients with stages from {accepted, mid-login, backend, backend, transfer}, 0–2 late connections, backend opening 0/300/600 ms after the stop; connection timeout 2 s; non-trivial = every case with an in-flight client or a late connection; distinct = distinct request lines; added: PROXY on with a client whose header is outstanding at the stop; the same Listener started and stopped once before (restart=1) and started again afterwards while late clients keep waiting (again=1); one 15 s-timeout case with a backend answering 11.5 s after the stop; passage::start stopped by a real SIGINT mid-login (c17.app)",
+    "rule": "the race schedule first, then random cases: 0–4 in-flight clients with stages from {accepted, mid-login, backend, backend, transfer}, 0–2 late connections, backend opening 0/300/600 ms after the stop; connection timeout 2 s; non-trivial = every case with an in-flight client or a late connection; distinct = distinct request lines; added: PROXY on with a client whose header is outstanding at the stop; the same Listener started and stopped once before (restart=1) and started again afterwards while late clients keep waiting (again=1); one 15 s-timeout case with a backend answering 11.5 s after the stop; passage::start stopped by a real SIGINT mid-login (c17.app); one case in a child process with 160 descriptors: an un-acceptable connection during the drain (c17.fd)",
     "trusted_base": TB_LISTENER,
     "assumptions": ["in-flight clients cooperate after the stop (those that do not are bounded by the connection timeout)"],
     "timeout": {"quick": 1800, "thorough": 14400},
